@@ -173,12 +173,22 @@ FUNC_ALIASES = {
     "builtins.abs": "np.abs",
     "np.asanyarray": "np.asarray",
     "np.flatnonzero": "np.flatnonzero",
+    "np.nonzero": "np.where",  # np.where(m) with one argument is np.nonzero(m)
 }
 # numeric no-ops: f(x) == x for the purposes of term comparison
 TRANSPARENT = {"builtins.float", "np.asarray", "np.float64", "np.asfarray"}
 
 
+def _is_str(t):
+    return t.op == "const" and isinstance(t.a[0], str)
+
+
 def binop(op, l, r):
+    if op == "+" and (_is_str(l) or _is_str(r)):
+        # text concatenation: two literals fold, and the operands keep their order
+        if _is_str(l) and _is_str(r):
+            return const(l.a[0] + r.a[0])
+        return mk("bin", op, l, r)
     if op in COMMUTATIVE_BIN and r.id < l.id:
         l, r = r, l
     if op == "*":
@@ -292,6 +302,12 @@ def cmp(op, l, r):
         op, l, r = "<", r, l
     elif op == ">=":
         op, l, r = "<=", r, l
+    if op in ("<", "<=", "==", "!=") and l.op == "const" and r.op == "const":
+        x, y = l.a[0], r.a[0]
+        num = lambda v: isinstance(v, (int, float)) and not isinstance(v, bool) and v == v
+        if (num(x) and num(y)) or (isinstance(x, str) and isinstance(y, str)):
+            # two literals of one kind: the comparison is decided
+            return const({"<": x < y, "<=": x <= y, "==": x == y, "!=": x != y}[op])
     if op in ("in", "notin") and l.op == "const" and isinstance(l.a[0], (int, float)) and not isinstance(l.a[0], bool) and r.op in ("tuple", "list", "set") and 1 <= len(r.a) <= 8 and not any(z.op == "const" for z in r.a):
         # 0 in (a, b, c)  is  a == 0 or b == 0 or c == 0
         t = boolop("or", [cmp("==", z, l) for z in r.a])
@@ -368,6 +384,11 @@ def call(fn, args=(), kw=()):
         fn = ext(name)
     if name in CMP_FUNCS and len(args) == 2 and not kw:
         return cmp(CMP_FUNCS[name], args[0], args[1])
+    if name == "builtins.len" and len(args) == 1 and not kw and args[0].op in ("tuple", "list") and not any(z.op == "star" for z in args[0].a):
+        return const(len(args[0].a))  # the length of a display
+    if name == "builtins.list" and len(args) == 1 and not kw and args[0].op == "comp" and args[0].a[0] in ("gen", "list"):
+        # list(E for x in it) is [E for x in it]
+        return mk("comp", "list", *args[0].a[1:])
     if name == "np.count_nonzero" and args and args[0].op in ("cmp", "bool"):
         # counting the True entries of a Boolean array is summing it
         name = "np.sum"
